@@ -84,7 +84,9 @@ def part1(arg):
                 for cands in itertools.permutations(idents, k):
                     if k == 4 and cands[0] > cands[1]:
                         continue
-                    for req in ({}, {idents[1]: 30}, {idents[2]: 30, idents[0]: 30}):
+                    # pending requests: none / one / one per node / two on the two instances of one node
+                    for req in ({}, {idents[1]: 30}, {idents[2]: 30, idents[0]: 30}, {idents[0]: 30, idents[1]: 30},
+                                {idents[2]: 40, idents[3]: 30}):
                         for load in (0, 40, 70, 100):
                             for st in StartingStrategies:
                                 got = get_supvisors_instance(m, st, list(cands), load, dict(req))
@@ -295,7 +297,7 @@ def main():
     cov['samples'] = samples
     cov['rule'] = ('(1) 4 instances on 2 nodes brought to OPERATION by the real handshake, load tables built by really '
                    'starting load processes (0/30/60 per instance), then the real get_supvisors_instance is called for every '
-                   'ordered candidate subset x 3 pending-request maps x 4 loads x 6 strategies x 2 requesters and compared '
+                   'ordered candidate subset x 5 pending-request maps (incl. two requests on the two instances of one node) x 4 loads x 6 strategies x 2 requesters and compared '
                    'with the set-valued reference; (2) real start_application of a SINGLE_INSTANCE / SINGLE_NODE / ALL_INSTANCES application '
                    'of 3 sequenced programs, every process starting normally: the targets of the emitted start requests are '
                    'compared with the reference (instance / node of the whole application, then request by request with the '
